@@ -137,6 +137,10 @@ class CFModel(CustomModel):
             if value.get("Condition") is None
             or (value.get("Condition") is not None and resolved_conditions.get(value["Condition"], True))
         }
+        for key, resolved in resolved_resources.items():
+            if isinstance(resolved, dict) and isinstance(resources[key].get("Condition"), str):
+                # The resource's Condition is the name of a condition, not text to normalise
+                resolved["Condition"] = resources[key]["Condition"]
         return CFModel(**dict_value, Conditions=resolved_conditions, Resources=resolved_resources)
 
     def expand_actions(self) -> "CFModel":
